@@ -27,6 +27,8 @@ static Plan gen_typed(uint64_t seed, int tier, char const* prof)
   int nthreads = static_cast<int>(r.range(1, 3));
   p.threads.resize(static_cast<size_t>(nthreads));
   bool c11 = std::string(prof) == "C11";
+  // "the configured non-printable-character sanitisation": the library default, a stricter user callback, or none (vm.h)
+  p.cfg["printable_mode"] = Rng(seed ^ 0x5a17).pick<int64_t>({0, 0, 1, 1, 2});
   for (int t = 0; t < nthreads; ++t)
   {
     auto& ops = p.threads[static_cast<size_t>(t)];
